@@ -11,6 +11,9 @@
 //        i/n: shard i of n of the exhaustive walk (histories dealt out by their first two steps)
 //   nn scenario <graph> <scenario.json>      re-run one reported scenario, observing every step
 //   nn record <out> <structure> <params> <nexec> <nops>   random histories with observations
+//   nn audit <out> <structure> <params> <nexec> <nops>    random histories, internal structure dumped
+//        after every mutation for specs/ds/GnatAudit.tla (needs -DNN_PROBE)
+//   nn kcenters <cases.ndjson>               replay of specs/ds/GreedyKCenters.tla on GreedyKCenters
 //
 // Element type: {pt, uid}; the distance function sees pt only (L1 on the code x + 1024*y),
 // operator== sees uid only - so "the same element twice" and "a removed element returned" are
@@ -28,6 +31,7 @@
 #include "ompl/datastructures/NearestNeighborsSqrtApprox.h"
 #include "ompl/util/RandomNumbers.h"
 #include <algorithm>
+#include <cmath>
 #include <memory>
 #include <set>
 
@@ -87,7 +91,21 @@ struct ProbeIface
     virtual ~ProbeIface() = default;
     virtual Shape shape() const = 0;
     virtual bool staleCache() const = 0;
+    virtual json dump() const = 0;  // the internal structure as one audit record (specs/ds/GnatAudit.tla)
 };
+// distances are integers here; the tables start at +-infinity
+static long long encDist(double v)
+{
+    if (std::isinf(v))
+        return v > 0 ? 1000000 : -1000000;
+    long long r = std::llround(v);
+    if (std::fabs(v - (double)r) > 1e-9)
+    {
+        fprintf(stderr, "FRAMEWORK: non-integer distance %g in a GNAT table\n", v);
+        _exit(4);
+    }
+    return vt::tlcInt(r);
+}
 #ifdef NN_PROBE
 template <class Base>
 struct Probed : Base, ProbeIface
@@ -158,6 +176,56 @@ struct Probed : Base, ProbeIface
             if (!std::binary_search(addr.begin(), addr.end(), r))
                 return true;
         return false;
+    }
+    // Dumb projection of the tree for the M4 audit: nodes in pre-order (id = position, 1-based),
+    // every table as it stands, and the removal cache as locators (node id, slot; slot 0 = the
+    // pivot, node 0 = the cached address is not an element of the tree).  TLC does the judging.
+    void dumpNode(const Node *n, int parent, int slot, std::size_t nsiblings, json &nodes,
+                  std::map<const El *, std::pair<int, int>> &where) const
+    {
+        int id = (int)nodes.size() + 1;
+        json jn{{"id", id}, {"parent", parent}, {"slot", slot}, {"pivot", json{{"pt", n->pivot_.pt}, {"uid", n->pivot_.uid}}},
+                {"minR", encDist(n->minRadius_)}, {"maxR", encDist(n->maxRadius_)}};
+        json mn = json::array(), mx = json::array(), data = json::array();
+        for (std::size_t i = 0; i < nsiblings && i < n->minRange_.size(); ++i)
+        {
+            mn.push_back(encDist(n->minRange_[i]));
+            mx.push_back(encDist(n->maxRange_[i]));
+        }
+        where[&n->pivot_] = {id, 0};
+        for (std::size_t i = 0; i < n->data_.size(); ++i)
+        {
+            data.push_back(json{{"pt", n->data_[i].pt}, {"uid", n->data_[i].uid}});
+            where[&n->data_[i]] = {id, (int)i + 1};
+        }
+        jn["minRange"] = mn;
+        jn["maxRange"] = mx;
+        jn["data"] = data;
+        jn["children"] = json::array();
+        nodes.push_back(jn);
+        for (std::size_t c = 0; c < n->children_.size(); ++c)
+        {
+            int cid = (int)nodes.size() + 1;
+            nodes[id - 1]["children"].push_back(cid);
+            dumpNode(n->children_[c], id, (int)c + 1, n->children_.size(), nodes, where);
+        }
+    }
+    json dump() const override
+    {
+        json nodes = json::array(), removed = json::array();
+        std::map<const El *, std::pair<int, int>> where;
+        if (this->tree_)
+            dumpNode(this->tree_, 0, 0, 0, nodes, where);
+        std::vector<std::pair<int, int>> loc;
+        for (const El *r : this->removed_)
+        {
+            auto it = where.find(r);
+            loc.push_back(it == where.end() ? std::make_pair(0, 0) : it->second);
+        }
+        std::sort(loc.begin(), loc.end());
+        for (auto &l : loc)
+            removed.push_back(json{{"node", l.first}, {"slot", l.second}});
+        return json{{"e", "Audit"}, {"size", (int)this->size_}, {"nodes", nodes}, {"removed", removed}};
     }
 };
 #endif
@@ -1065,6 +1133,263 @@ static int recordMain(int argc, char **argv)
     return 0;
 }
 
+// ------------------------------------------------------------------ M4 audit: dumped internals
+// nn audit <out> <structure> <params> <nexec> <nops>: random mutation histories; after every
+// mutating call the whole internal structure is written as one record for specs/ds/GnatAudit.tla.
+static int auditMain(int argc, char **argv)
+{
+    if (argc < 7)
+    {
+        fprintf(stderr, "usage: nn audit <out> <structure> <params> <nexec> <nops>\n");
+        return 2;
+    }
+    std::string structure = argv[3], pname = argv[4];
+    int nexec = atoi(argv[5]);
+    long nops = atol(argv[6]);
+    const Params *prm = &NOPARAMS;
+    for (int i = 0; i < NPARAMS; ++i)
+        if (isGnat(structure) && pname == PARAMS[i].name)
+            prm = &PARAMS[i];
+    if (!haveProbe() || !isGnat(structure))
+    {
+        std::cout << "AUDIT-UNAVAILABLE" << std::endl;
+        return 0;
+    }
+    vt::Trace tr(argv[2]);
+    vt::Rng rng(vt::envSeed() * 7368787ULL + 29);
+    static const std::vector<std::vector<int>> universes = {
+        {0, 1, 2, 100, 101, 102}, {0, 1, 2, 1024, 1025, 1026, 2048, 2049, 2050},
+        {0, 1, 2, 3, 4, 5, 6, 7, 8, 9, 10, 11, 12, 13, 14, 15}, {5, 6, 40}};
+    long records = 0, withChildren = 0, withCache = 0, maxNodes = 0, maxDepth = 0, maxLive = 0;
+    Counters cnt;
+    for (int x = 0; x < nexec; ++x)
+    {
+        const auto &uni = universes[x % universes.size()];
+        int target = prm->isDefault ? 80 : (x % 3 == 0 ? 10 : x % 3 == 1 ? 24 : 45);
+        Made m = makeStructure(structure, *prm);
+        NN &nn = *m.nn;
+        std::vector<El> liveEls, removedEls;
+        int nextUid = 1;
+        tr.emit(json{{"e", "Reset"}, {"s", structure}, {"p", prm->name}, {"x", x}});
+        auto pt = [&]() { return uni[rng.below((int)uni.size())]; };
+        for (long i = 0; i < nops; ++i)
+        {
+            int live = (int)liveEls.size();
+            int r = rng.below(100);
+            int addW = live < target ? 58 : 38;
+            ProbeStep ps(m.probe, cnt, *prm);
+            bool wasRemove = false, removeResult = false;
+            if (r < addW)
+            {
+                if (rng.below(7) == 0)
+                {
+                    std::vector<El> v;
+                    int n = 2 + rng.below(live == 0 ? 14 : 5);
+                    for (int j = 0; j < n; ++j)
+                        v.push_back(El{pt(), nextUid++});
+                    nn.add(v);
+                    liveEls.insert(liveEls.end(), v.begin(), v.end());
+                }
+                else
+                {
+                    El e{pt(), nextUid++};
+                    if (!removedEls.empty() && rng.below(5) == 0)
+                    {
+                        int j = rng.below((int)removedEls.size());
+                        e = removedEls[j];
+                        removedEls.erase(removedEls.begin() + j);
+                    }
+                    nn.add(e);
+                    liveEls.push_back(e);
+                }
+            }
+            else if (r < 97 || live == 0)
+            {
+                wasRemove = true;
+                if (live > 0 && rng.below(8) != 0)
+                {
+                    int j = rng.below(live);
+                    El e = liveEls[j];
+                    removeResult = nn.remove(e);
+                    liveEls.erase(liveEls.begin() + j);
+                    removedEls.push_back(e);
+                    if (removedEls.size() > 64)
+                        removedEls.erase(removedEls.begin());
+                }
+                else
+                {
+                    El e = !removedEls.empty() && rng.below(2) ? removedEls[rng.below((int)removedEls.size())] : El{pt(), 1000000 + nextUid++};
+                    removeResult = nn.remove(e);
+                }
+            }
+            else if (rng.below(3) == 0)
+            {
+                m.probe->harnessClear = true;
+                nn.clear();
+                m.probe->harnessClear = false;
+                liveEls.clear();
+            }
+            else
+                continue;
+            ps.after(wasRemove, removeResult);
+            json rec = m.probe->dump();
+            rec["live"] = (int)liveEls.size();  // what the harness believes (not used by the audit invariants)
+            tr.emit(rec);
+            ++records;
+            Shape sh = m.probe->shape();
+            withChildren += sh.internal > 0;
+            withCache += sh.cache > 0;
+            maxNodes = std::max<long>(maxNodes, sh.nodes);
+            maxDepth = std::max<long>(maxDepth, sh.depth);
+            maxLive = std::max<long>(maxLive, (long)liveEls.size());
+        }
+    }
+    std::cout << "AUDITED " << json{{"records", records}, {"structure", structure}, {"params", prm->name},
+                                    {"with_children", withChildren}, {"with_cache", withCache}, {"max_nodes", maxNodes},
+                                    {"max_depth", maxDepth}, {"max_live", maxLive}, {"probe", cnt.toJson()}}
+                                   .dump()
+              << std::endl;
+    return 0;
+}
+
+// ------------------------------------------------------------------ GreedyKCenters replay
+// nn kcenters <cases.ndjson>: every line is a terminal state of specs/ds/GreedyKCenters.tla, i.e. one
+// admissible answer {data, k, centers (1-based), dists} for the case (data, k).  The real
+// GreedyKCenters is run on every case - the data vector in the spec's order, reversed and in a
+// seeded shuffle - again and again until the random first centre has taken every value, and each
+// answer must be one of the admissible ones of the specification, with exactly its distance matrix.
+static int kcentersMain(int argc, char **argv)
+{
+    if (argc < 3)
+        return 2;
+    struct Case
+    {
+        std::vector<int> data;
+        unsigned k;
+        std::map<std::vector<int>, std::vector<std::vector<int>>> adm;  // centres (0-based) -> matrix [j][i]
+        std::set<std::vector<int>> hit;
+    };
+    std::map<std::pair<std::vector<int>, unsigned>, Case> cases;
+    for (auto &j : vt::readNdjson(argv[2]))
+    {
+        auto data = j["data"].get<std::vector<int>>();
+        unsigned k = j["k"].get<unsigned>();
+        Case &c = cases[{data, k}];
+        c.data = data;
+        c.k = k;
+        auto cs = j["centers"].get<std::vector<int>>();
+        for (auto &x : cs)
+            --x;
+        c.adm[cs] = j["dists"].get<std::vector<std::vector<int>>>();
+    }
+    vt::Rng rng(vt::envSeed() * 15485863ULL + 5);
+    long calls = 0, failures = 0, earlyStops = 0, tieCases = 0, firstsNeeded = 0, firstsSeen = 0, admTotal = 0, admHit = 0,
+         reusedMatrix = 0;
+    json firstFail;
+    ompl::GreedyKCenters<El> kc;  // one selector for everything, as a GNAT keeps one for its life
+    kc.setDistanceFunction(distFun);
+    ompl::GreedyKCenters<El>::Matrix shared;  // a matrix that is re-used across calls of different sizes
+    auto fail = [&](const Case &c, const std::string &kind, const std::string &why, const std::vector<int> &order,
+                    const std::vector<unsigned> &got) {
+        if (failures++ == 0)
+            firstFail = json{{"kind", kind}, {"why", why}, {"data", c.data}, {"k", c.k}, {"order", order}, {"centers", got}};
+    };
+    for (auto &kv : cases)
+    {
+        Case &c = kv.second;
+        const int n = (int)c.data.size();
+        admTotal += (long)c.adm.size();
+        std::set<int> firsts;
+        for (auto &a : c.adm)
+            firsts.insert(a.first[0]);
+        if ((int)firsts.size() != n)
+        {
+            fprintf(stderr, "FRAMEWORK: the specification does not offer every first centre for a case\n");
+            return 4;
+        }
+        if (c.adm.size() > firsts.size())
+            ++tieCases;
+        for (int variant = 0; variant < 3; ++variant)
+        {
+            std::vector<int> order(n);  // position in the vector handed to the code -> index in the spec's data
+            for (int i = 0; i < n; ++i)
+                order[i] = variant == 1 ? n - 1 - i : i;
+            if (variant == 2)
+                for (int i = n - 1; i > 0; --i)
+                    std::swap(order[i], order[rng.below(i + 1)]);
+            std::vector<El> data;
+            for (int i = 0; i < n; ++i)
+                data.push_back(El{c.data[order[i]], i + 1});
+            std::set<int> seen;
+            firstsNeeded += n;
+            for (int attempt = 0; attempt < 80 * n && (int)seen.size() < n; ++attempt)
+            {
+                std::vector<unsigned> centers;
+                ompl::GreedyKCenters<El>::Matrix fresh;
+                bool reuse = (attempt + variant) % 2 == 1;
+                ompl::GreedyKCenters<El>::Matrix &dists = reuse ? shared : fresh;
+                reusedMatrix += reuse;
+                kc.kcenters(data, c.k, centers, dists);
+                ++calls;
+                std::vector<int> mapped;
+                bool inRange = !centers.empty();
+                for (unsigned ci : centers)
+                {
+                    if ((int)ci >= n)
+                        inRange = false;
+                    else
+                        mapped.push_back(order[ci]);
+                }
+                if (!inRange)
+                {
+                    fail(c, "not-admissible", "a centre index is out of range (or no centre at all)", order, centers);
+                    break;
+                }
+                seen.insert(mapped[0]);
+                auto it = c.adm.find(mapped);
+                if (it == c.adm.end())
+                {
+                    fail(c, "not-admissible", "the centre sequence is not one the specification admits", order, centers);
+                    break;
+                }
+                c.hit.insert(mapped);
+                if (centers.size() < c.k)
+                    ++earlyStops;
+                if ((std::size_t)dists.rows() < (std::size_t)n || (std::size_t)dists.cols() < centers.size())
+                {
+                    fail(c, "matrix", "the distance matrix is smaller than data x centres", order, centers);
+                    break;
+                }
+                bool ok = true;
+                for (int jj = 0; jj < n && ok; ++jj)
+                    for (std::size_t i = 0; i < centers.size() && ok; ++i)
+                        if (dists(jj, i) != (double)it->second[order[jj]][i])
+                        {
+                            fail(c, "matrix", "dists(" + std::to_string(jj) + "," + std::to_string(i) + ") = " +
+                                                  std::to_string(dists(jj, i)) + " but the distance to that centre is " +
+                                                  std::to_string(it->second[order[jj]][i]),
+                                 order, centers);
+                            ok = false;
+                        }
+                if (!ok)
+                    break;
+            }
+            firstsSeen += (long)seen.size();
+        }
+        admHit += (long)c.hit.size();
+    }
+    if (failures)
+        std::cout << "KCFAIL " << firstFail.dump() << std::endl;
+    std::cout << "KCSUMMARY " << json{{"cases", cases.size()}, {"calls", calls}, {"failures", failures},
+                                      {"early_stops", earlyStops}, {"cases_with_ties", tieCases},
+                                      {"first_centres_needed", firstsNeeded}, {"first_centres_seen", firstsSeen},
+                                      {"admissible_answers", admTotal}, {"admissible_answers_hit", admHit},
+                                      {"calls_reusing_matrix", reusedMatrix}}
+                                     .dump()
+              << std::endl;
+    return failures ? 1 : 0;
+}
+
 int main(int argc, char **argv)
 {
     vt::installCrashHandlers();
@@ -1077,6 +1402,10 @@ int main(int argc, char **argv)
         return scenarioMain(argc, argv);
     if (mode == "record")
         return recordMain(argc, argv);
-    fprintf(stderr, "usage: nn replay|scenario|record ...\n");
+    if (mode == "audit")
+        return auditMain(argc, argv);
+    if (mode == "kcenters")
+        return kcentersMain(argc, argv);
+    fprintf(stderr, "usage: nn replay|scenario|record|audit|kcenters ...\n");
     return 2;
 }
